@@ -51,3 +51,72 @@ def make_eq(chk, d):
         chk.ob(rule, inst, ok, '' if ok else f'identity fails: {dd.describe(got, ref)}', where, key=key, method='GF(p^2) PIT')
         return ok
     return eq
+
+
+# ---------------------------------------------------------------------------------------------- in-place updates of arguments
+_FIXTURE = '''
+def kernel(x, y, order_l=2):
+    z = x
+    z /= y
+    return 3. / (2. * (order_l - 1)) * z / (1. + z)
+def fine(x, y):
+    z = x * 1.
+    z /= y
+    return z
+'''
+
+
+def _inplace_offenders(fd):
+    """augmented assignments whose target is a parameter of fd or a plain alias of one (v = param; v = np.asarray(param)); with numpy arrays
+    `a /= b` divides the caller's array in place, so the function's result then depends on how often / in which order it was called"""
+    params = {a.arg for a in fd.args.args + fd.args.kwonlyargs} - {'self', 'cls'}
+    alias = set(params)
+    out = []
+    body_nodes = []
+    for st in fd.body:
+        body_nodes.extend(ast.walk(st))
+    changed = True
+    while changed:
+        changed = False
+        for n in body_nodes:
+            if isinstance(n, ast.Assign) and len(n.targets) == 1 and isinstance(n.targets[0], ast.Name):
+                v = n.value
+                src = None
+                if isinstance(v, ast.Name): src = v.id
+                elif isinstance(v, ast.Call) and ast.unparse(v.func) in ('np.asarray', 'numpy.asarray', 'np.asanyarray') and v.args and isinstance(v.args[0], ast.Name): src = v.args[0].id
+                if src in alias and n.targets[0].id not in alias:
+                    # only if every definition of the target is such an alias (a name that is also bound to a fresh value elsewhere is not tracked)
+                    defs = [a for a in body_nodes if isinstance(a, ast.Assign) and any(isinstance(t, ast.Name) and t.id == n.targets[0].id for t in a.targets)]
+                    if all(a is n or (isinstance(a.value, ast.Name) and a.value.id in alias) for a in defs):
+                        alias.add(n.targets[0].id); changed = True
+    fresh_rebound = {t.id for n in body_nodes if isinstance(n, ast.Assign) for t in n.targets if isinstance(t, ast.Name)
+                     and not (isinstance(n.value, ast.Name) and n.value.id in alias)
+                     and not (isinstance(n.value, ast.Call) and ast.unparse(n.value.func) in ('np.asarray', 'numpy.asarray', 'np.asanyarray'))}
+    for n in body_nodes:
+        if isinstance(n, ast.AugAssign) and isinstance(n.target, ast.Name) and n.target.id in alias:
+            if n.target.id in params and n.target.id in fresh_rebound and any(isinstance(a, ast.Assign) and a.lineno < n.lineno and any(isinstance(t, ast.Name) and t.id == n.target.id for t in a.targets)
+                                                                              for a in body_nodes):
+                continue        # the parameter name was rebound to a fresh value before the update
+            out.append((n.lineno, ast.unparse(n)[:60]))
+    return out
+
+
+def inplace_lint(chk, repo, rule, paths, floor_funcs=1):
+    """repository rule (zero instances on the reference tree, positive fixture evaluated on every run): a numeric kernel never updates one of its arguments in place"""
+    fx = ast.parse(_FIXTURE)
+    fk = [n for n in fx.body if isinstance(n, ast.FunctionDef)]
+    if not _inplace_offenders(fk[0]) or _inplace_offenders(fk[1]):
+        raise AnalysisError('in-place lint: the positive / negative fixtures are not classified as expected')
+    nfunc = 0
+    for path in paths:
+        mod = repo.by_path(path)
+        offenders = []
+        for fd in ast.walk(mod.tree):
+            if isinstance(fd, ast.FunctionDef):
+                nfunc += 1
+                for ln, txt in _inplace_offenders(fd):
+                    offenders.append(f'{fd.name} line {ln}: `{txt}` updates an argument (or a plain alias of one) in place; with array inputs the caller\'s array is modified and a second use sees the modified values')
+        chk.ob(rule, f'{path}: no kernel updates one of its arguments in place (array calls must equal scalar calls, arguments stay intact)', not offenders, '; '.join(offenders[:3]), mod.rel(),
+               key=f'{rule}|{path}', method='alias-aware augmented-assignment lint (fixture-checked)')
+    if nfunc < floor_funcs:
+        raise AnalysisError(f'in-place lint for {rule}: only {nfunc} functions scanned')
